@@ -1,7 +1,7 @@
 """C17 — Relay components (Forwarder, FanIn, FanOut, Requeuer) neither lose nor invent."""
 from . import common as C
 
-HEADER = 'From WM Require Import Base.Prelude Message.Model Handler.RouterHandle Relay.Model Corr.C17.\nOpen Scope N_scope.\n'
+HEADER = 'From WM Require Import Base.Prelude Message.Model Handler.RouterHandle Relay.Model Relay.Redelivery Corr.C17.\nOpen Scope N_scope.\n'
 PB = ['PubAccept', 'PubError', 'PubPanic']
 ST = ['Unsettled', 'Acked', 'Nacked']
 SIG_UTF8 = 'C17/forwarder-json-envelope-alters-non-utf8-strings'
@@ -135,6 +135,44 @@ def describe_relay(c, tab):
     return d
 
 
+def split_attempts(trace):
+    """the flat trace of a redelivery history -> one list of events per attempt (an attempt ends with its settle)"""
+    out, cur = [], []
+    for e in trace:
+        cur.append(e)
+        if e[0] == 'settle':
+            out.append(cur); cur = []
+    if cur:
+        out.append(cur)
+    return out
+
+
+def redeliv_term(c, atoi, canon):
+    ids = msg_ids(c['msg']) | {0}
+    for e in c['trace']:
+        if e[0] == 'pub':
+            for m in e[2]:
+                ids |= msg_ids(m)
+    ids = sorted(ids)
+    at = C.coq_list(['(%s, %s)' % (C.coq_N(i), C.coq_Z(atoi[i])) for i in ids if i in atoi])
+    it = C.coq_list(['(%s, %s)' % (C.coq_Z(atoi[i]), C.coq_N(i)) for i in ids if i in canon])
+    comp = '(KForwarder %s)' % C.coq_bool(c['ackbad']) if c['comp'] == 'forwarder' else '(KRequeuer (GConst %s) (0)%%Z)' % C.coq_N(c['target'])
+    obs = []
+    for a in split_attempts(c['trace']):
+        st = [e for e in a if e[0] == 'settle']
+        final = 'Unsettled' if not st else ('Acked' if st[-1][1] else 'Nacked')
+        obs.append('(%s, %s)' % (final, C.coq_list(['ECall'] + [event_term(e, 0) for e in a])))   # the handler invocation is not observable here
+    beh = C.coq_list(['(false, %s)' % PB[b] for b in c['beh']])
+    return '(RD %s %s %s %s %s %s %s %s %s %s)' % (comp, C.coq_N(c['src']), msg_term(c['msg']), beh, env_term(c['dec']), at, it, C.coq_N(c['rk']),
+                                                 C.coq_list(obs), msg_term(c['after']))
+
+
+def describe_redeliv(c, tab):
+    return dict(component=c['comp'], id=c['id'], source='real GoChannel, topic %s' % tab[c['src']],
+                original=None if c['msg'] is None else show_msg(c['msg'], tab), destination_behaviour_per_attempt=[PB[b] for b in c['beh']],
+                attempts=[show_trace(a, tab) for a in split_attempts(c['trace'])], in_flight=c['flight'])
+
+
 def describe_fanout(c, tab):
     return dict(component='fanout', id=c['id'], topic=tab[c['src']], consumed=show_msg(c['msg'], tab), subscribers_of_topic=c['nsubs'],
                 internal_pubsub_closed=c['closed'], received=[dict(topic=tab[g['t']], **show_msg(g['m'], tab)) for g in c['got']],
@@ -244,6 +282,45 @@ def run_once(ctx, res, seed, size, tag):
                                        case=describe_fanout(fo[i], tab)))
         for i in r['R_mis']:
             res.mismatches.append(dict(kind='Corr.C17.fanout_mismatch (run CFanOut + fanout_deliver vs the real FanOut)', explained_by_violation=(i in r['R_vio']), case=describe_fanout(fo[i], tab)))
+    # ---- redelivery from a real GoChannel source (round "proofs")
+    rd = []
+    for c in data.get('redeliv') or []:
+        res.evaluations += 1
+        res.count('redelivery: %s attempts=%s in_flight=%d' % (c['comp'], min(len(c['beh']), 6), c['flight']))
+        bad = [e for e in c['trace'] if event_term(e, 0) is None]
+        if bad or c['msg'] is None:
+            res.violations.append(dict(signature='C17/redelivery/' + (bad[0][0] if bad else 'not-published'),
+                                       what='redelivery: %s' % ('the message was never acked although the destination accepts the last scripted attempt' if bad and bad[0][0] == 'never-acked' else 'message not taken'),
+                                       case=describe_redeliv(c, tab)))
+            continue
+        rd.append(c)
+        res.nontrivial.add(('redeliv', c['comp'], tuple(c['beh']), c['msg']['nil'], min(len(c['msg']['m']), 7)))
+    for part, chunk in enumerate(C.chunks(rd, 150)):
+        r = C.coq_eval(pid, 'cases_%s_redeliv_%d' % (tag, part), HEADER + 'Definition cases : list redeliv_case := %s.\n' % C.coq_list([redeliv_term(c, atoi, canon) for c in chunk]),
+                       [('R_mis', 'redeliv_mismatches cases'), ('R_vio', 'redeliv_violations cases')])
+        for i in r['R_vio']:
+            c = chunk[i]
+            res.violations.append(dict(signature='C17/redelivery/' + c['comp'],
+                                       what='%s fed by a real GoChannel: redelivery history rejected (every attempt relays an intact copy of the ORIGINAL - requeuer: counter +1, never accumulating -, no attempt after an Ack, accepted at most once)' % c['comp'],
+                                       case=describe_redeliv(c, tab)))
+        for i in r['R_mis']:
+            c = chunk[i]
+            res.mismatches.append(dict(kind='Corr.C17.redeliv_mismatch (Relay/Redelivery.v redeliver FreshCopy vs the real %s behind a real GoChannel)' % c['comp'],
+                                       explained_by_violation=(i in r['R_vio']), case=describe_redeliv(c, tab)))
+    ch = data.get('chain') or []
+    for c in ch:
+        res.evaluations += 1
+        res.count('chain Publisher->GoChannel->Forwarder->GoChannel->subscriber: nacks=%d' % c['nacks'])
+        res.nontrivial.add(('chain', c['nacks'], c['msg']['nil'], min(len(c['msg']['m']), 7)))
+    if ch:
+        r = C.coq_eval(pid, 'cases_%s_chain' % tag, HEADER + 'Definition cases : list chain_case := %s.\n' % C.coq_list(
+            ['(CH %s %s %d %s %s)' % (C.coq_N(c['topic']), msg_term(c['msg']), c['nacks'], C.coq_list(['(%s, %s)' % (C.coq_N(g['t']), msg_term(g['m'])) for g in c['got']]), ST[c['final']]) for c in ch]),
+                       [('R_vio', 'chain_violations cases')])
+        for i in r['R_vio']:
+            c = ch[i]
+            res.violations.append(dict(signature='C17/forwarder-chain', what='forwarder.Publisher -> GoChannel -> Forwarder -> GoChannel -> subscriber: the subscriber did not get exactly nacks+1 intact copies on the topic published to',
+                                       case=dict(id=c['id'], topic=tab[c['topic']], published=show_msg(c['msg'], tab), nacks=c['nacks'],
+                                                 received=[dict(topic=tab[g['t']], **show_msg(g['m'], tab)) for g in c['got']], order=c['order'])))
     # ---- constructors
     fic = data['fanin_cfg']; rqc = data['requeuer_cfg']
     t1 = C.coq_list(['(FIC %s %s %s %s %s)' % (C.coq_bool(c['sub']), C.coq_bool(c['pub']), nlist(c['sources'] or []), C.coq_N(c['target']), C.coq_N(c['res'])) for c in fic])
